@@ -25,7 +25,7 @@ def run(ctx):
   rm = relaysys.RelayModules(ctx.scratch)
   # A
   mcs = [dict(nd=2, maxq=2, mpm=2, flow=True, dynamic=False), dict(nd=2, maxq=2, mpm=1, flow=True, dynamic=True),
-         dict(nd=1, maxq=2, mpm=5, flow=False, dynamic=False)]
+         dict(nd=1, maxq=2, mpm=5, flow=False, dynamic=False), dict(nd=1, maxq=2, mpm=1, flow=True, dynamic=False, ratio=True)]
   if not ctx.quick:
     mcs += [dict(nd=2, maxq=2, mpm=5, flow=True, dynamic=True, rf=2), dict(nd=2, maxq=3, mpm=2, flow=False, dynamic=True)]
   for i, c in enumerate(mcs):
@@ -52,6 +52,20 @@ def run(ctx):
                       final=traces[-1]['ev'][-1]['p']))
       ctx.sample(dict(kind='replayed TLC behaviour', script=origins[0]['script'][:20]))
       first = False
+
+  # scale: a backlog of several hundred one-datapoint batches behind a destination that comes up, with
+  # TIME_TO_DEFER_SENDING = 0 (every batch is its own reactor callback, however long the backlog)
+  big = dict(nd=1, maxq=600, mpm=1, flow=False, dynamic=False, nr=1, defer=0)
+  rm.configure(big)
+  consts = relaycheck.consts_for(rm, 0, 0)
+  n = ctx.pick(420, 560)
+  sc = [('Arrive', 0)] * n + [('ConnMade', 1)]
+  tr, skipped = relaysys.scripted_run(rm, big, sc, settle=True, max_settle=2 * n)
+  org = dict(kind='replayed TLC behaviour', cfg=big, script=[list(x) for x in sc], skipped=skipped, directed='long backlog')
+  ctx.evaluations += 1
+  verdicts = relaycheck.judge(ctx, consts, [tr], 'C07 long backlog')
+  relaycheck.report(ctx, [tr], [org], verdicts, relaycheck.C07_FLAGS)
+  ctx.cov['long_backlog_events'] = len(tr['ev'])
 
 
 def replay(ctx, rp):
